@@ -25,6 +25,8 @@ type Body struct {
 	// Relative: the result depends on a process-wide counter by design (font names f<k>); the
 	// oracle then compares sets of results with what sequential calls produce.
 	Relative bool
+	// Heavy: many library calls in one body; the free-running pass runs it in every eighth round only
+	Heavy bool
 }
 
 func pts(xy ...float64) []oracle.Pt {
